@@ -9,6 +9,7 @@
 From SV Require Import Lib.Base Gen.Consts Gen.WireFields Model.WireBase Proofs.WireBaseProofs.
 From SV Require Import Model.WireIpv6Opt Proofs.WireIpv6OptProofs.
 From SV Require Import Model.WireIpv6Hbh Proofs.WireIpv6HbhProofs.
+From SV Require Import Model.WireIpv6Routing Proofs.WireIpv6RoutingProofs.
 
 (* ---------------- IPv6 extension-header option ----------------
    data_len / data are documented to panic on a one-octet Pad1 option: they apply to every
@@ -65,3 +66,21 @@ Print Assumptions C07_v6hbh_accessors_safe.
 Theorem C07_v6hbh_parse_total : forall bs, bytes_ok bs = true -> v6hbh_parse bs <> Panic.
 Proof. exact v6hbh_parse_total. Qed.
 Print Assumptions C07_v6hbh_parse_total.
+
+(* ---------------- Routing header ----------------
+   routing_type / segments_left apply to every header; home_address to Type 2 headers; cmpr_i,
+   cmpr_e, pad, addresses to RPL source routing headers (documented "may panic if this header is
+   not ..."). *)
+
+Theorem C07_v6rt_accessors_safe : forall bs,
+  v6rt_check_len bs = Ok tt ->
+  v6rt_routing_type bs <> Panic /\ v6rt_segments_left bs <> Panic /\
+  (v6rt_routing_type bs = Ok v6rt_T_TYPE2 -> v6rt_home_address bs <> Panic) /\
+  (v6rt_routing_type bs = Ok v6rt_T_RPL ->
+     v6rt_cmpr_i bs <> Panic /\ v6rt_cmpr_e bs <> Panic /\ v6rt_pad bs <> Panic /\ v6rt_addresses bs <> Panic).
+Proof. exact v6rt_accessors_safe. Qed.
+Print Assumptions C07_v6rt_accessors_safe.
+
+Theorem C07_v6rt_parse_total : forall bs, v6rt_parse bs <> Panic.
+Proof. exact v6rt_parse_total. Qed.
+Print Assumptions C07_v6rt_parse_total.
